@@ -249,7 +249,7 @@ theorem C02_batch_is_map (cfg : Config) (hwb : cfg.WellBehaved) (xs : List Json)
     | nil => rfl
     | cons r rs => simp [Function.comp_def, flatten_singletons]
   rw [hres, hlog]
-  simp only [dispatch, Json.isArr, ↓reduceIte, hb, hsz, Bool.false_eq_true, runBatch_eq]
+  simp only [dispatch, Json.isArr, ↓reduceIte, hb, hsz, Bool.false_eq_true, runBatch_eq, assembleBatch]
   obtain ⟨bb, hbb, hjson⟩ := batch_ids_unique_no_raise cfg.handler hA ctx b.requests hnd
   cases hk : keepSet (b.requests.map (fun r => (cfg.handler r ctx).1)) with
   | nil => rfl
